@@ -127,6 +127,9 @@ def main(rep, tier, only):
         ("TOP-2", "parse_to_empty: both error classes become options::error; leftover error => failure", 1),
         ("TOP-3", "options::parse: state from the given arguments, context from the parser's option names, through parse_to_empty", 1),
         ("ST-G1", "options::state is copy-constructed only at the back-tracking points of sum and optional", 2),
+        ("SUM-3", "combine_errors_impl: missing+missing => missing carrying the SECOND error's state; every other pair => other_error", 4),
+        ("CTX-OWN", "every parse_context handed to a parser is built from THAT parser's own option_names()", 3),
+        ("ARGS-MUT", "the argument vector is only mutated by erasing exactly the matched token(s): use_flag one element found by std::find, use_option name+value, pop_arg the positional", 3),
         ("CTOR-V", "parser constructors call their definition validators on the stored members", 3)]:
         rep.rule(rid, text, floor=floor)
     # ---- product
@@ -340,6 +343,134 @@ def main(rep, tier, only):
     for name in allowed:
         if name not in per:
             rep.fail("ST-G1", "ST-G1|" + name, name, name, why="the back-tracking copy vanished: the alternative consumes the original state")
+    # ---- SUM-3: overload table of combine_errors_impl
+    seen = set()
+    for fn in db.fns("fcppt::options::detail::combine_errors_impl"):
+        u = fn["_unit"]
+        pts = [(u.ty(p["t"]) or "").replace("fcppt::options::", "").replace(" &&", "") for p in fn.get("params", [])[:2]]
+        pts = ["other_error" if "other_error" in t or "strong_typedef" in t else ("missing_error" if "missing_error" in t else t) for t in pts]
+        k = tuple(pts)
+        if k in seen:
+            continue
+        seen.add(k)
+        ret = u.ty(fn.get("ret")) or ""
+        retk = "missing_error" if "missing_error" in ret else "other_error"
+        want = "missing_error" if k == ("missing_error", "missing_error") else "other_error"
+        why = None
+        if retk != want:
+            why = "combine(%s, %s) yields %s, specification %s: a hard error would become recoverable by optional / many" % (k[0], k[1], retk, want)
+        elif want == "missing_error":
+            rets = [T.show(T.norm(u, r["e"])) for r in F.walk(fn.get("body"), into_lambdas=False) if r.get("k") == "return"]
+            if not rets or "_error2.state()" not in rets[0]:
+                why = "missing+missing does not carry the second error's state: %s" % rets
+        key = "SUM-3|combine(%s,%s)" % k
+        (rep.fail if why else rep.ok)("SUM-3", key, F.primary_site(fn), F.describe(fn)[:160], **({"why": why} if why else {"how": want}))
+    # ---- CTX-OWN
+    def strip_deref(t):
+        while isinstance(t, tuple) and t[0] == "c" and str(t[1]).split("::")[-1] in ("deref", "parser") and (t[2] is not None or t[3]):
+            t = t[2] if t[2] is not None else t[3][0]
+        return t
+    seen = set()
+    for fn in db.functions:
+        u = fn["_unit"]
+        if not u.file_of(fn["primary"]).startswith("libs/options/"):
+            continue
+        for sub in [x for x in u.all_functions if F.top_function(x) is fn]:
+            defs = {}
+            for v in F.walk(sub.get("body"), into_lambdas=False):
+                if v.get("k") == "var" and v.get("init") is not None:
+                    defs[v["id"]] = v["init"]
+            # also locals of the enclosing function captured by the lambda
+            for v in F.walk(fn.get("body")):
+                if v.get("k") == "var" and v.get("init") is not None:
+                    defs.setdefault(v["id"], v["init"])
+            for n in F.walk(sub.get("body"), into_lambdas=False):
+                if n.get("k") != "call":
+                    continue
+                q = T.callee_qn(u, n) or ""
+                if not (q.endswith("::parse") or q == "fcppt::options::detail::parse_to_empty"):
+                    continue
+                args = n.get("args", [])
+                ctx = None
+                for a in args:
+                    if "parse_context" in (u.ty(T.unwrap(u, a).get("t")) or "") if T.unwrap(u, a) is not None else False:
+                        ctx = a
+                if ctx is None:
+                    continue
+                cn = T.unwrap(u, ctx)
+                if cn is not None and cn.get("k") == "ref" and cn["id"] in defs:
+                    cn = T.unwrap(u, defs[cn["id"]])
+                if cn is None or cn.get("k") != "construct":
+                    continue   # a context parameter passed through unchanged
+                src = None
+                for m in F.walk(cn):
+                    if m.get("k") == "call" and (T.callee_qn(u, m) or "").endswith("::option_names") and m.get("recv") is not None:
+                        src = strip_deref(T.norm(u, m["recv"]))
+                target = n.get("recv") if q.endswith("::parse") else (args[0] if args else None)
+                tgt = strip_deref(T.norm(u, target)) if target is not None else None
+                loc = u.loc(n["loc"])
+                key = "CTX-OWN|%s|%s" % (F.fn_name(fn).replace("fcppt::options::", ""), T.show(tgt))
+                if (key, loc) in seen:
+                    continue
+                seen.add((key, loc))
+                if src is not None and src == tgt:
+                    rep.ok("CTX-OWN", key, loc, F.describe(fn)[:140], how="own option_names()")
+                else:
+                    rep.fail("CTX-OWN", key, loc, F.describe(fn)[:140],
+                             why="parser `%s` is run with a context built from `%s`.option_names(): its own option values are not known, "
+                                 "so an option's value can be taken as a positional argument" % (T.show(tgt), T.show(src) if src else "?"))
+    # ---- ARGS-MUT
+    ALLOWED = {
+        "fcppt::options::detail::use_flag": ("erase1", "one element found by std::find"),
+        "fcppt::options::detail::use_option": ("erase2", "the option name and its value: erase(pos, std::next(pos, 2))"),
+        "fcppt::options::detail::pop_arg": ("erase1", "the positional found by next_arg"),
+    }
+    for fn in db.functions:
+        u = fn["_unit"]
+        name = F.fn_name(fn)
+        if not u.file_of(fn["primary"]).startswith("libs/options/"):
+            continue
+        muts = []
+        argvars = set()
+        for v in F.walk(L.bodies(fn)):
+            if v.get("k") == "var" and v.get("init") is not None and "state::args" in str(T.norm(u, v["init"])):
+                argvars.add(v["id"])
+
+        def from_state_args(x):
+            t = T.norm(u, x)
+            return "fcppt::options::state::args" in str(t) or bool(T.roots(t) & argvars)
+        for n in F.walk(L.bodies(fn)):
+            if n.get("k") != "call":
+                continue
+            q = T.callee_qn(u, n) or ""
+            short = q.split("::")[-1]
+            is_args = n.get("recv") is not None and q.startswith("std::vector") and from_state_args(n["recv"])
+            if is_args and short in ("erase", "clear", "pop_back", "resize", "assign", "insert", "push_back", "emplace_back", "swap", "operator="):
+                muts.append((short, n))
+            if q in ("std::remove", "std::remove_if", "std::unique", "std::rotate", "std::sort", "std::partition", "std::stable_partition"):
+                if n.get("args") and from_state_args(n["args"][0]):
+                    muts.append((q, n))
+        if not muts:
+            continue
+        key = "ARGS-MUT|" + name.replace("fcppt::options::", "")
+        if name not in ALLOWED:
+            if name in ("fcppt::options::state::state",):
+                continue
+            rep.fail("ARGS-MUT", key, u.loc(muts[0][1]["loc"]), name, why="mutates the argument vector (%s) outside the token consumers" % muts[0][0])
+            continue
+        kind, text = ALLOWED[name]
+        why = None
+        if len(muts) != 1 or muts[0][0] != "erase":
+            why = "mutations %s; allowed: exactly one erase of %s" % ([m[0] for m in muts], text)
+        else:
+            a = muts[0][1].get("args", [])
+            if kind == "erase1" and len(a) != 1:
+                why = "erases a range; allowed: exactly %s (every other occurrence must stay for the leftover check)" % text
+            if kind == "erase2":
+                ts = [T.show(T.norm(u, x)) for x in a]
+                if len(a) != 2 or "next(" not in ts[1] or ", 2)" not in ts[1].replace("2L", "2"):
+                    why = "erases %s; allowed: %s" % (ts, text)
+        (rep.fail if why else rep.ok)("ARGS-MUT", key, u.loc(muts[0][1]["loc"]), name, **({"why": why} if why else {"how": text}))
     # ---- CTOR-V
     want = {"fcppt::options::flag::flag": "fcppt::options::detail::check_short_long_names",
             "fcppt::options::option::option": "fcppt::options::detail::check_short_long_names",
